@@ -652,9 +652,9 @@ def epollUpdate {σ} (cfg : Cfg) (env : IdleEnv) (c : Conn σ) : Out σ :=
 
 def idleFuel {σ} (c : Conn σ) : Nat := 50 * (c.buf.length + 1)
 
-/-- MHD_connection_handle_idle -/
-def handleIdle {σ} (cfg : Cfg) (app : App σ) (env : IdleEnv) (c : Conn σ) : Out σ :=
-  let (c1, l1, f) := idleLoop cfg app env (idleFuel c) { c with touched := false }
+/-- MHD_connection_handle_idle with an explicit bound on the passes of its `while` loop -/
+def handleIdleWith {σ} (fuel : Nat) (cfg : Cfg) (app : App σ) (env : IdleEnv) (c : Conn σ) : Out σ :=
+  let (c1, l1, f) := idleLoop cfg app env fuel { c with touched := false }
   match f with
   | .dead | .keep => (c1, l1)
   | _ =>
@@ -671,6 +671,11 @@ def handleIdle {σ} (cfg : Cfg) (app : App σ) (env : IdleEnv) (c : Conn σ) : O
         let (c3, l3) := epollUpdate cfg env c2
         (c3, l1 ++ l2 ++ l3)
       else (c2, l1 ++ l2)
+
+/-- MHD_connection_handle_idle.  The bound `idleFuel` is never reached (`Mhd.ConnSM.handleIdle_fuel_irrelevant`:
+    any larger bound gives the same result), so this is the unbounded loop of the C code. -/
+def handleIdle {σ} (cfg : Cfg) (app : App σ) (env : IdleEnv) (c : Conn σ) : Out σ :=
+  handleIdleWith (idleFuel c) cfg app env c
 
 /-! ## MHD_connection_handle_read / _write -/
 
